@@ -1,7 +1,14 @@
+//! Kani proof harnesses (Engine K).  Every harness states: property id, what is symbolic,
+//! the bound, the unwind value and the stubs in force.  All harnesses are run through
+//! `run_harness.py` (flags: `-Z stubbing --no-assertion-reach-checks
+//! --cbmc-args --max-field-sensitivity-array-size 256`); unwinding assertions stay on.
 use crate::k271::K271;
+use crate::scenario::*;
 use crate::stubs::*;
 use crate::unit::*;
+use ark_bulletproofs::r1cs::{R1CSError, R1CSProof};
 use ark_bulletproofs::verif_hooks::InnerProductProof;
+use ark_bulletproofs::BulletproofGens;
 use merlin::Transcript;
 use rand_chacha::ChaCha20Core;
 use rand_core::block::BlockRngCore;
@@ -56,17 +63,28 @@ macro_rules! split4 {
 const LA: [UnitA; 3] = [UnitA(K271(3)), UnitA(K271(4)), UnitA(K271(11))];
 const RA: [UnitA; 3] = [UnitA(K271(5)), UnitA(K271(6)), UnitA(K271(13))];
 
-/// Body of the C08 ipp harness for literal `l`, `r`; `n` is symbolic.
-fn ipp_body(r: usize, l: usize, n: usize, t0: &Transcript) {
+macro_rules! split10 {
+    ($x:expr, $f:ident $(, $a:expr)*) => {
+        match $x {
+            0 => $f(0 $(, $a)*),
+            1 => $f(1 $(, $a)*),
+            2 => $f(2 $(, $a)*),
+            3 => $f(3 $(, $a)*),
+            4 => $f(4 $(, $a)*),
+            5 => $f(5 $(, $a)*),
+            6 => $f(6 $(, $a)*),
+            7 => $f(7 $(, $a)*),
+            8 => $f(8 $(, $a)*),
+            _ => $f(9 $(, $a)*),
+        }
+    };
+}
+
+/// Body of the C08 ipp harness; all three arguments are literals when symex gets here.
+fn ipp_body(n: usize, r: usize, l: usize, t0: &Transcript) {
     let proof = InnerProductProof::<UnitA>::verif_from_parts(LA[..l].to_vec(), RA[..r].to_vec(), K271(7), K271(9));
     let mut t = t0.clone();
-    // `n` stays symbolic on the rejecting side; on the accepting side it is replaced by the
-    // literal it is equal to (so the domain separator bytes and the `1..n` loop are constant).
-    let res = if n == (1usize << l) {
-        proof.verif_verification_scalars(1usize << l, &mut t)
-    } else {
-        proof.verif_verification_scalars(n, &mut t)
-    };
+    let res = proof.verif_verification_scalars(n, &mut t);
     match &res {
         Ok((u_sq, u_inv_sq, s)) => {
             assert!(l == r);
@@ -80,14 +98,17 @@ fn ipp_body(r: usize, l: usize, n: usize, t0: &Transcript) {
     kani::cover!(res.is_ok() && l == 3, "Ok reachable with three rounds");
     kani::cover!(res.is_ok() && l == 0, "Ok reachable with zero rounds");
     kani::cover!(res.is_err() && l == r, "Err reachable with equal lengths (wrong n)");
-    kani::cover!(res.is_err() && l < r, "Err reachable with |L| < |R|");
-    kani::cover!(res.is_err() && l > r, "Err reachable with |L| > |R|");
+    kani::cover!(res.is_err() && l < r && n == (1usize << l), "Err reachable with |L| < |R|, n = 2^|L|");
+    kani::cover!(res.is_err() && l > r && n == (1usize << l), "Err reachable with |L| > |R|, n = 2^|L|");
     core::mem::forget(t);
     core::mem::forget(res);
     core::mem::forget(proof);
 }
+fn ipp_split_n(r: usize, l: usize, n: usize, t0: &Transcript) {
+    split10!(n, ipp_body, r, l, t0)
+}
 fn ipp_split_r(l: usize, r: usize, n: usize, t0: &Transcript) {
-    split4!(r, ipp_body, l, n, t0)
+    split4!(r, ipp_split_n, l, n, t0)
 }
 
 /// C08 `c08_ipp_scalars_any_lengths`
@@ -117,4 +138,145 @@ fn c08_ipp_scalars_any_lengths() {
     let t0 = Transcript::new(b"ipp");
     split4!(l, ipp_split_r, r, n, &t0);
     core::mem::forget(t0);
+}
+
+const PTS: [UnitA; 11] = [
+    UnitA(K271(21)), UnitA(K271(22)), UnitA(K271(23)), UnitA(K271(24)), UnitA(K271(25)), UnitA(K271(26)),
+    UnitA(K271(27)), UnitA(K271(28)), UnitA(K271(29)), UnitA(K271(30)), UnitA(K271(31)),
+];
+const SCS: [K271; 3] = [K271(41), K271(42), K271(43)];
+
+/// Fixed part of an encoded proof on the unit group: 11 points + 5 scalars + two u64 counts.
+pub const FIXED_BYTES: usize = 11 * POINT_BYTES + 5 * SCALAR_BYTES + 16;
+
+/// C08 ipp, quick variant: same harness body with |L|,|R| <= 2 and n <= 5.
+#[kani::proof]
+#[kani::unwind(34)]
+#[kani::stub(keccak::f1600, f1600_stub)]
+#[kani::stub(keccak::p1600, p1600_stub)]
+#[kani::stub(zeroize::optimization_barrier, barrier_stub)]
+#[kani::stub(<ChaCha20Core as SeedableRng>::from_seed, chacha_from_seed_stub)]
+#[kani::stub(<ChaCha20Core as BlockRngCore>::generate, chacha_generate_stub)]
+fn c08_ipp_scalars_any_lengths_quick() {
+    let l: usize = kani::any();
+    let r: usize = kani::any();
+    let n: usize = kani::any();
+    kani::assume(l <= 2 && r <= 2 && n <= 5);
+    let t0 = Transcript::new(b"ipp");
+    split4!(l, ipp_split_r, r, n, &t0);
+    core::mem::forget(t0);
+}
+
+/// Size of the symbolic input of `c08_decode_any_bytes`.
+pub const DECODE_MAX: usize = 56;
+
+/// C08/C11 `c08_decode_any_bytes`
+///
+/// Property: C08 (decoding arbitrary bytes terminates with a proof or a format error, memory
+/// proportional to the input) and C11 (invalid encodings are rejected with FormatError).
+/// Symbolic: all 56 input bytes and the length `len` in 0..=56 of the slice handed to
+/// `R1CSProof::<UnitA>::from_bytes`.
+/// Claim: no panic / overflow / out-of-bounds; the result is `Ok` or `Err(FormatError)`;
+/// on `Ok`, `FIXED + (|L| + |R|) * POINT_BYTES <= len` (nothing is allocated that the input did
+/// not pay for) and every decoded element is canonical (< 271).
+/// Bound: 56 bytes = fixed part (48) + up to 4 list elements, so every (|L|,|R|) with
+/// |L|+|R| <= 4 is reachable; unwind 16 (at most 13 list elements fit before the reader runs
+/// dry).  No transcript, no stubs.
+#[kani::proof]
+#[kani::unwind(16)]
+fn c08_decode_any_bytes() {
+    let bytes: [u8; DECODE_MAX] = kani::any();
+    let len: usize = kani::any();
+    kani::assume(len <= DECODE_MAX);
+    let res = R1CSProof::<UnitA>::from_bytes(&bytes[..len]);
+    match &res {
+        Ok(p) => {
+            let (pts, scs, ipp) = p.verif_parts();
+            let (lv, rv, a, b) = ipp.verif_parts();
+            assert!(FIXED_BYTES + (lv.len() + rv.len()) * POINT_BYTES <= len);
+            assert!(a.0 < 271 && b.0 < 271);
+            assert!(pts[0].0 .0 < 271 && pts[10].0 .0 < 271 && scs[2].0 < 271);
+            kani::cover!(lv.len() == 1 && rv.len() == 2, "Ok with |L| = 1, |R| = 2");
+            kani::cover!(lv.len() == 0 && rv.len() == 0 && len == FIXED_BYTES, "Ok with the minimal encoding");
+            kani::cover!(len > FIXED_BYTES + (lv.len() + rv.len()) * POINT_BYTES, "Ok with trailing bytes");
+        }
+        Err(e) => {
+            assert!(matches!(e, R1CSError::FormatError));
+            kani::cover!(len == DECODE_MAX, "Err on a full-length input");
+        }
+    }
+    core::mem::forget(res);
+}
+
+/// Body of `c11_size_law_roundtrip_prefix` for a literal round count `k`.
+fn c11_body(k: usize, cut: usize) {
+    let ipp = InnerProductProof::<UnitA>::verif_from_parts(LA[..k].to_vec(), RA[..k].to_vec(), K271(7), K271(9));
+    let proof = R1CSProof::<UnitA>::verif_from_parts(PTS, SCS, ipp);
+    let bytes = proof.to_bytes().unwrap();
+    // size law
+    assert!(bytes.len() == 11 * POINT_BYTES + 5 * SCALAR_BYTES + 16 + 2 * k * POINT_BYTES);
+    // decode(encode) re-encodes to identical bytes
+    let back = R1CSProof::<UnitA>::from_bytes(&bytes);
+    assert!(back.is_ok());
+    let back = back.unwrap();
+    let again = back.to_bytes().unwrap();
+    assert!(again == bytes);
+    // every strict prefix is rejected with FormatError
+    kani::assume(cut < bytes.len());
+    let pre = R1CSProof::<UnitA>::from_bytes(&bytes[..cut]);
+    assert!(matches!(pre, Err(R1CSError::FormatError)));
+    kani::cover!(k == 3 && cut == bytes.len() - 1, "three rounds, longest strict prefix");
+    kani::cover!(k == 0 && cut == 0, "zero rounds, empty prefix");
+    kani::cover!(k == 2 && cut == FIXED_BYTES - 4 + 2, "cut inside the L list");
+    core::mem::forget(pre);
+    core::mem::forget(again);
+    core::mem::forget(back);
+    core::mem::forget(bytes);
+    core::mem::forget(proof);
+}
+
+/// C11 `c11_size_law_roundtrip_prefix`
+///
+/// Property: C11 (size law, encode/decode/encode identity, every strict prefix rejected).
+/// Symbolic: number of inner-product rounds k in 0..=3 (|L| = |R| = k), cut point in 0..len.
+/// Concrete: the element values.
+/// Claim: `to_bytes().len() == 11*P + 5*S + 16 + 2k*P` with P = S = 2 (unit group);
+/// `from_bytes(to_bytes(p))` is Ok and re-encodes to identical bytes; for every cut < len,
+/// `from_bytes(&bytes[..cut])` is `Err(FormatError)`.
+/// Bound: k <= 3 (60 bytes); unwind 62 (byte-wise slice equality over 60 bytes).
+/// No transcript, no stubs.
+#[kani::proof]
+#[kani::unwind(62)]
+fn c11_size_law_roundtrip_prefix() {
+    let k: usize = kani::any();
+    let cut: usize = kani::any();
+    kani::assume(k <= 3 && cut <= 64);
+    split4!(k, c11_body, cut);
+}
+
+use merlin::TranscriptRng;
+use merlin::TranscriptRngBuilder;
+use rand_core::RngCore;
+
+#[kani::proof]
+#[kani::unwind(202)]
+#[kani::stub(keccak::f1600, f1600_stub)]
+#[kani::stub(keccak::p1600, p1600_stub)]
+#[kani::stub(zeroize::optimization_barrier, barrier_stub)]
+#[kani::stub(<ChaCha20Core as SeedableRng>::from_seed, chacha_from_seed_stub)]
+#[kani::stub(<ChaCha20Core as BlockRngCore>::generate, chacha_generate_stub)]
+#[kani::stub(merlin::Transcript::new, toy_transcript_new)]
+#[kani::stub(merlin::Transcript::append_message, toy_append_message)]
+#[kani::stub(merlin::Transcript::challenge_bytes, toy_challenge_bytes)]
+#[kani::stub(TranscriptRngBuilder::rekey_with_witness_bytes, toy_rekey)]
+#[kani::stub(TranscriptRngBuilder::finalize, toy_finalize)]
+#[kani::stub(<TranscriptRng as RngCore>::fill_bytes, toy_rng_fill_bytes)]
+fn dbg2_verify_concrete() {
+    let bp = BulletproofGens::<UnitA>::new(2, 1);
+    let ipp = InnerProductProof::<UnitA>::verif_from_parts(LA[..1].to_vec(), RA[..1].to_vec(), K271(7), K271(9));
+    let proof = R1CSProof::<UnitA>::verif_from_parts(PTS, SCS, ipp);
+    let res = verify_proof(2, &proof, UnitA(K271(50)), &bp);
+    kani::cover!(res.is_err());
+    core::mem::forget(bp);
+    core::mem::forget(proof);
 }
